@@ -66,8 +66,11 @@ class SlotType(BitsInterface):
     @staticmethod
     def from_bits(bits: bitarray) -> "SlotType":
         assert len(bits) == 20, "SlotType must be 20 bits"
-        return SlotType(
+        slot_type: SlotType = SlotType(
             colour_code=ba2int(bits[:4]),
             data_type=ba2int(bits[4:8]),
             parity=ba2int(bits[8:]),
         )
+        # check the word as received, undefined data types are folded to Reserved and would be checked as such
+        slot_type.fec_parity_ok = Golay2087.check(bits)
+        return slot_type
